@@ -92,8 +92,9 @@ type world struct {
 	counters map[string]int64                // delivered-id -> recorded total
 	timers   map[string]int
 	hists    map[string]int64
-	dirty    map[string]bool // delivered-ids of children reached through a tag value the sanitizer rewrites
-	preAlloc map[string]bool // delivered-ids of counters that a closed predecessor scope allocated once already
+	gauges   map[string]map[float64]bool // delivered-id -> values written by some thread
+	dirty    map[string]bool             // delivered-ids of children reached through a tag value the sanitizer rewrites
+	preAlloc map[string]bool             // delivered-ids of counters that a closed predecessor scope allocated once already
 }
 
 func (w *world) saw(key string, obj interface{}) {
@@ -133,6 +134,15 @@ func doReq(w *world, scopes []tally.Scope, r Req) {
 		}
 		g := sc.Gauge(raw)
 		w.saw(fmt.Sprintf("gauge/%d/%s", r.S, n), g)
+		w.mu.Lock()
+		if w.gauges == nil {
+			w.gauges = map[string]map[float64]bool{}
+		}
+		if w.gauges[metricName(r.S, n)] == nil {
+			w.gauges[metricName(r.S, n)] = map[float64]bool{}
+		}
+		w.gauges[metricName(r.S, n)][float64(r.D)] = true
+		w.mu.Unlock()
 		g.Update(float64(r.D))
 	case "timer":
 		n, raw := fmt.Sprintf("t%d", r.N), fmt.Sprintf("t%d", r.N)
@@ -218,8 +228,13 @@ func judge(errs *pbt.Errs, w *world, events []rec.Event, cached bool) {
 	gotT := map[string]int{}
 	gotH := map[string]int64{}
 	allocs := map[string]int{}
+	lastG := map[string]float64{}
 	for _, e := range events {
 		switch e.Kind {
+		case rec.KGauge:
+			if !rec.IsInternal(e.Name) {
+				lastG[deliveredName(e)] = e.F
+			}
 		case rec.KCounter:
 			gotC[deliveredName(e)] += e.I
 		case rec.KTimer:
@@ -248,6 +263,15 @@ func judge(errs *pbt.Errs, w *world, events []rec.Event, cached bool) {
 	for k, v := range gotC {
 		if _, ok := w.counters[k]; !ok && v != 0 {
 			errs.Addf("counter %s: delivered %d, nothing recorded", k, v)
+		}
+	}
+	// every gauge that was updated is delivered, and the most recent delivery is one of the values
+	// written (which one is not judged: the updaters are not ordered)
+	for k, vals := range w.gauges {
+		if v, ok := lastG[k]; !ok {
+			errs.Addf("gauge %s was updated (%v) and never delivered", k, vals)
+		} else if !vals[v] {
+			errs.Addf("gauge %s: most recent delivery is %v, the values written are %v", k, v, vals)
 		}
 	}
 	for k, v := range w.timers {
@@ -395,12 +419,14 @@ type RaceCase struct {
 	Programs [][]Req `json:"programs"`
 	Passes   int     `json:"passes"`
 	Seed     uint64  `json:"seed"`
-	Snapshot bool    `json:"snapshot"`
+	Snapshot bool    `json:"snapshot"`      // another goroutine takes snapshots and asks for the capabilities meanwhile
 	San      bool    `json:"san,omitempty"` // sanitizer configured, names in a spelling it rewrites (see Case.San)
+	Shards   uint    `json:"shards,omitempty"`
 }
 
 func genRace(t *rapid.T) RaceCase {
 	c := RaceCase{Cached: rapid.Bool().Draw(t, "cached"), Passes: rapid.IntRange(1, 4).Draw(t, "passes"), Seed: rapid.Uint64().Draw(t, "seed"), Snapshot: rapid.Bool().Draw(t, "snapshot"), San: rapid.IntRange(0, 2).Draw(t, "san") == 0, Both: rapid.IntRange(0, 5).Draw(t, "both") == 0}
+	c.Shards = uint(rapid.SampledFrom([]int{0, 0, 1, 2, 4}).Draw(t, "shards"))
 	n := rapid.IntRange(8, 16).Draw(t, "ngoroutines")
 	common := genReqs(t, 4)
 	for i := 0; i < n; i++ {
@@ -427,7 +453,7 @@ func runRace(c RaceCase) (pbt.Outcome, error) {
 		vc := tally.ValidCharacters{Ranges: alnum, Characters: []rune{'_', '.'}}
 		opts.SanitizeOptions = &tally.SanitizeOptions{NameCharacters: vc, KeyCharacters: vc, ValueCharacters: vc, ReplacementCharacter: '_'}
 	}
-	root, _ := tally.VerifNewRootScope(opts, 0, 0)
+	root, _ := tally.VerifNewRootScope(opts, 0, c.Shards)
 	scopes := []tally.Scope{root, root.SubScope("sub")}
 	w := &world{san: c.San, ptrs: map[string]map[interface{}]bool{}, counters: map[string]int64{}, timers: map[string]int{}, hists: map[string]int64{}}
 	f := sched.NewFree(c.Seed)
@@ -454,6 +480,20 @@ func runRace(c RaceCase) (pbt.Outcome, error) {
 			tally.VerifReportLoopRun(root)
 		}
 	}()
+	if c.Snapshot {
+		wg.Add(1)
+		go func() {
+			defer wg.Done()
+			<-start
+			for i := 0; i < 20; i++ {
+				if ts, ok := root.(interface{ Snapshot() tally.Snapshot }); ok {
+					_ = ts.Snapshot().Counters()
+				}
+				_ = root.Capabilities().Reporting()
+				_ = scopes[1].Capabilities().Tagging()
+			}
+		}()
+	}
 	close(start)
 	wg.Wait()
 	tally.VerifSetHooks(nil)
@@ -465,7 +505,7 @@ func runRace(c RaceCase) (pbt.Outcome, error) {
 func TestRace(t *testing.T) {
 	pbt.Main(t, pbt.Prop[RaceCase]{
 		ID: "C09", Name: "race",
-		Rule: "free-running mode (real parallelism, built with -race, hooks inject seeded Gosched perturbation): 8..16 goroutines run generated first-use/record programs sharing a common prefix of requests on the root and a subscope while another goroutine runs 1..4 report passes (cardinality metrics on); same oracle as the cooperative mode (object identity, Allocate once, conservation) plus the race detector (a report is a violation; the program is replayable, the schedule is not). Every case is non-trivial (>=8 goroutines with shared keys).",
+		Rule: "free-running mode (real parallelism, built with -race, hooks inject seeded Gosched perturbation): 8..16 goroutines run generated first-use/record programs sharing a common prefix of requests on the root and a subscope while another goroutine runs 1..4 report passes (cardinality metrics on) and, in half of the cases, a third takes snapshots and asks for the capabilities; registry shards default/1/2/4; same oracle as the cooperative mode (object identity, Allocate once, conservation, every updated gauge delivered with one of the written values) plus the race detector (a report is a violation; the program is replayable, the schedule is not). Every case is non-trivial (>=8 goroutines with shared keys).",
 		Gen:  genRace, Run: runRace,
 		// the schedule is not part of the case: a replay (and, after a first failure, every shrink
 		// candidate) is run up to Retries times and fails if any run fails
